@@ -297,6 +297,13 @@ impl TxHistory {
             }
             5 => vec![0x76, 0xab, 0xac], // DUP CODESEPARATOR CHECKSIG
             6 => vec![0x63, 0x51, 0x67, 0x52, 0x68], // IF 1 ELSE 2 ENDIF
+            7 if rng.chance(1, 40) => {
+                // a script whose length sits on the 16-bit compact-size boundary (PUSHDATA2 / PUSHDATA4 of 65 532 - 65 536 bytes)
+                let n = *rng.pick(&[65_532usize, 65_533, 65_535, 65_536]);
+                let mut v = if n <= 65_535 { vec![0x4d, (n & 0xff) as u8, (n >> 8) as u8] } else { vec![0x4e, 0x00, 0x00, 0x01, 0x00] };
+                v.extend(rng.bytes(n));
+                v
+            }
             7 => {
                 // PUSHDATA2 crossing the 253 compact-size boundary
                 let n = rng.range(256, 300) as usize;
